@@ -32,6 +32,8 @@ func register(p *Property) {
 			}
 		}()
 		inner(c)
+		// error discipline of the functions the rule set has read (S-ERRFLOW)
+		sErrFlow(c)
 	}
 	Registry[p.ID] = p
 }
